@@ -315,7 +315,9 @@ def run_cases(harness, cases, asan=False, per_case_timeout=60, jobs=16, env=None
     chunks = [cases[i::nchunks] for i in range(nchunks)]
 
     def run_chunk(ch):
-        rc, out, err = run_harness(harness, "".join(s for _, s in ch), timeout=per_case_timeout * len(ch) + 30, asan=asan, env=env)
+        # a chunk normally needs well under a second per case; a generous but finite budget, then one by one
+        budget = min(per_case_timeout * len(ch) + 30, 60 + 3 * len(ch) * (4 if asan else 1))
+        rc, out, err = run_harness(harness, "".join(s for _, s in ch), timeout=budget, asan=asan, env=env)
         if rc == 0:
             return [(out, None)]
         if len(ch) == 1:
